@@ -22,9 +22,9 @@ TWO = ('EAStorySwap', 'EAItemSwap')
 ONE = ('roStoryMove', 'roStorySend')
 
 
-def mk(op, k, tk, pretty, T=60, repeats=False, long_body=False, post_merge=False):
+def mk(op, k, tk, pretty, T=60, repeats=False, long_body=False, post_merge=False, carried_timing=None):
     level, has_t, has_src, has_new = OPS[op]
-    P = {'op': op, 'k': k, 'tk': tk, 'pretty': pretty, 'long_body': long_body, 'post_merge': post_merge}
+    P = {'op': op, 'k': k, 'tk': tk, 'pretty': pretty, 'long_body': long_body, 'post_merge': post_merge, 'carried_timing': carried_timing}
     sym = [('u%d' % j, 'str') for j in range(k)]
     strs = [n for n, _ in sym]
     free = []
@@ -41,7 +41,7 @@ def mk(op, k, tk, pretty, T=60, repeats=False, long_body=False, post_merge=False
     pre = str_pre(strs + free + ['c0', 'c1']) + distinct(strs)
     cid = 'C20/%s/k%d%s/%s%s' % (op, k, ('/t-' + tk) if has_t else '', 'indented' if pretty else 'compact',
                                  '/ids-may-repeat' if repeats else '') + ('/long-body' if long_body else '') + \
-        ('/after-merge-and-edits' if post_merge else '')
+        ('/after-merge-and-edits' if post_merge else '') + ('/carried-timing-' + carried_timing if carried_timing else '')
     return Cell(pid=PID, cid=cid, harness='h_msgacc:msgacc_cell', params=P, sym=sym, pre=pre, stubs=('hash',),
                 timeout=T, cost=k)
 
@@ -63,6 +63,10 @@ def cells(tier):
         if TABLE[op][3] == 'ids' and op not in ONE:
             level, has_t, has_src, has_new = OPS[op]
             out.append(mk(op, 2 if op in TWO else 3, 'present' if has_t else None, False, T=T, repeats=True))
+    # carried stories whose timing metadata is absent, blank or free text
+    for op in ('roStoryAppend', 'roStoryInsert', 'roStoryReplace', 'EAStoryInsert', 'EAStoryReplace'):
+        for ct in ('none', 'blank', 'odd'):
+            out.append(mk(op, 2, 'present' if OPS[op][1] else None, False, T=T, carried_timing=ct))
     out.append(mk('roStorySend', 1, None, False, T=T, long_body=True))
     out.append(mk('roStorySend', 1, None, True, T=T, long_body=True))
     out.append(mk('roStorySend', 1, None, False, T=T, long_body=True, post_merge=True))
